@@ -30,6 +30,9 @@ rule("C17.k", "make_slp: every restriction row is repeated for every sample - th
               "column splits of A only; rows are left out at most where a row has no entry on future variables (counted, not summed)", floor=2)
 rule("C17.l", "make_slp: the scenarios are the user's samples, one to one - the number of samples and the list of cost samples that "
               "is appended are the whole list (or its image under create_cost_samples), never a selection (no de-duplication, filter, subset)", floor=1)
+rule("C17.o", "make_slp: the future selector has one entry per *variable* of the problem: it subscripts l, u, c and the columns of A. A mask "
+              "read off the de-duplicated mapping has one entry per variable that has a mapping row - an order outside the grid has none (C07.b): "
+              "the selector is brought to the full variable range (reindex over range(m) / a mask of length m) before it is used", floor=1)
 rule("C17.n", "make_slp: present and future partition the grid at one boundary - the sub-grid of the future starts at, and the sub-grid of the "
               "present ends at, the same expression (start_future); a boundary that is rounded or shifted on one side (ceil to the frequency: the "
               "epoch raster, not the grid's) makes steps of the future first-stage decisions", floor=1)
@@ -62,7 +65,7 @@ def _fresh_frames(fn):
     return out
 
 
-@analysis("slp", ["C07.e", "C17.b", "C17.c", "C17.d", "C17.f", "C17.h", "C17.j", "C17.k", "C17.l", "C17.m", "C17.n"])
+@analysis("slp", ["C07.e", "C17.b", "C17.c", "C17.d", "C17.f", "C17.h", "C17.j", "C17.k", "C17.l", "C17.m", "C17.n", "C17.o"])
 def run(ctx):
     p = ctx.p
     # ================================================================= C07.e
@@ -369,9 +372,12 @@ def run(ctx):
         ty = _Typer(ctx, ms)
         found = False
         for st in au.walk_stmts(ms.body):
-            if not (isinstance(st, ast.Assign) and isinstance(st.value, ast.Call) and au.method_name(st.value) == "isin" and isinstance(st.value.func, ast.Attribute)):
+            if not isinstance(st, ast.Assign):
                 continue
-            col = st.value.func.value
+            isin_c = [x for x in au.walk_local(st.value) if isinstance(x, ast.Call) and au.method_name(x) == "isin" and isinstance(x.func, ast.Attribute)]
+            if not isin_c:
+                continue
+            col = isin_c[0].func.value
             if not (isinstance(col, ast.Subscript) and au.const_str(col.slice) == "time_step"):
                 continue
             found = True
@@ -464,3 +470,18 @@ def run(ctx):
                "ending at ceil(start_future, freq) on a grid whose points are not multiples of the frequency (gas days from 06:00) the first future "
                "step is decided once for all scenarios, and the SLP value (192) falls below the expected value of fixing the present to a "
                "single-scenario solution (224)" % (sorted(s_txt), sorted(e_txt)), node=ends[0][0])
+
+
+    # ================================================================= C17.o the selector covers all variables
+    if sel_uses:
+        ref_sel = next((s0 for w, s0, _ in sel_uses if w == "c"), None) or sel_uses[0][1]
+        defs_o = [d for d in ff.all_defs(ref_sel) if d.kind == "assign" and d.value is not None]
+        full = any(isinstance(x, ast.Call) and au.method_name(x) in ("reindex", "zeros", "full", "ones", "arange", "isin", "in1d") and (
+            au.method_name(x) in ("reindex", "zeros", "full", "ones") or au.method_name(x) == "arange") for d in defs_o for x in au.walk_local(d.value)) and any(
+            isinstance(x, ast.Call) and au.method_name(x) in ("reindex", "zeros", "full", "ones") for d in defs_o for x in au.walk_local(d.value))
+        from_map = any(isinstance(x, ast.Subscript) and au.const_str(x.slice) == "time_step" for d in defs_o for x in au.walk_local(d.value))
+        ctx.ob("C17.o", slp, "the future selector %s covers every variable" % ref_sel, full if from_map or full else None,
+               "%s is read off the mapping (one entry per variable that has a row) and then subscripts l, u, c and the columns of A, which have one entry "
+               "per variable: a portfolio with a variable without row - an order of an order book outside the grid - makes make_slp raise IndexError "
+               "(boolean index did not match: 6 vs 5), although the deterministic problem is solved" % ref_sel, node=(defs_o[0].node if defs_o else slp.node),
+               ok_detail="brought to the full variable range", key="the future selector covers every variable")
